@@ -260,8 +260,20 @@ impl AnyState {
     /// The points (polygon corners, disc or particle centres) of every copy as the crate's own
     /// shape transform places them in Cartesian space.
     pub fn placed_points(&self) -> Vec<Vec<P2>> {
+        // (for outlines also the midpoint of every line: which corners a line joins is part of
+        // the shape)
         fn pts<T: serde::Serialize>(shape: &T) -> Vec<P2> {
-            body_from_json(&serde_json::to_value(shape).unwrap_or(Value::Null)).points()
+            let v = serde_json::to_value(shape).unwrap_or(Value::Null);
+            let mut out = body_from_json(&v).points();
+            if let Some(items) = v["items"].as_array() {
+                for it in items {
+                    if let (Some(a), Some(b)) = (it.get("start"), it.get("end")) {
+                        let f = |p: &Value, i: usize| p[i].as_f64().unwrap_or(f64::NAN);
+                        out.push([0.5 * (f(a, 0) + f(b, 0)), 0.5 * (f(a, 1) + f(b, 1))]);
+                    }
+                }
+            }
+            out
         }
         match self {
             AnyState::Poly(s) => s.cartesian_positions().map(|t| pts(&s.shape.transform(&t))).collect(),
